@@ -17,6 +17,9 @@ import (
 	"sync"
 
 	geom "github.com/twpayne/go-geom"
+	"github.com/twpayne/go-geom/encoding/geojson"
+	"github.com/twpayne/go-geom/encoding/wkbcommon"
+	"github.com/twpayne/go-geom/encoding/wkt"
 
 	"verif/sim/c19"
 	"verif/sim/core"
@@ -36,6 +39,10 @@ type Arg struct {
 	Cap int           `json:"cap,omitempty"` // spare capacity (elements) behind the data
 	Hex string        `json:"hex,omitempty"` // bytes of b
 	S   string        `json:"s,omitempty"`   // text of s:*, j, i
+	// option values (kinds o:gj, o:wktenc, o:wkbopt)
+	Digits int  `json:"digits,omitempty"` // max decimal digits, -1 = not set
+	BBox   bool `json:"bbox,omitempty"`
+	NaN    bool `json:"nan,omitempty"`
 }
 
 // Call is one library call on pool arguments.
@@ -86,7 +93,7 @@ func (prop) Describe() core.Description {
 		RealComponents: []string{"go-geom root package", "xy", "xyz", "bigxy", "xy/lineintersector", "transform", "encoding/wkb", "encoding/ewkb", "wkbhex/ewkbhex", "SQL wrappers", "encoding/wkt", "encoding/geojson", "encoding/kml", "encoding/igc", "Go runtime scheduler and race detector"},
 		StubComponents: []string{"caller goroutines (seeded programs)", "io.Reader/io.Writer under stream codecs (simio, per call)"},
 		FaultKinds:     []string{"shared-argument-overlap", "same-call-on->=2-workers", "gosched-yields"},
-		Probes:         []string{"probe:hull>50pts", "probe:hull-degenerate-octagon", "probe:decoder-and-encoder-share-bytes", "probe:wkt-parse-x>=4", "probe:panic-as-result", "probe:maxprocs=1", "probe:workers>=8"},
+		Probes:         []string{"probe:hull>50pts", "probe:hull-degenerate-octagon", "probe:decoder-and-encoder-share-bytes", "probe:wkt-parse-x>=4", "probe:panic-as-result", "probe:maxprocs=1", "probe:workers>=8", "probe:shared-option-value-on->=2-workers"},
 	}
 }
 
@@ -224,6 +231,31 @@ func buildPool(pool []Arg) ([]*item, error) {
 			it.b = append([]byte(a.S), spare(a.Cap, 0xAB)...)[:len(a.S)]
 		case "s:wkt", "s:hex":
 			it.s = a.S
+		case "o:gj":
+			if a.Digits < -1 || a.Digits > 15 {
+				return nil, fmt.Errorf("pool %d: bad digits", i)
+			}
+			if a.BBox {
+				it.gjOpts = append(it.gjOpts, geojson.EncodeGeometryWithBBox())
+			}
+			if a.Digits >= 0 {
+				it.gjOpts = append(it.gjOpts, geojson.EncodeGeometryWithMaxDecimalDigits(a.Digits))
+			}
+		case "o:wktenc":
+			if a.Digits < -1 || a.Digits > 15 {
+				return nil, fmt.Errorf("pool %d: bad digits", i)
+			}
+			if a.Digits >= 0 {
+				it.wktEnc = wkt.NewEncoder(wkt.EncodeOptionWithMaxDecimalDigits(a.Digits))
+			} else {
+				it.wktEnc = wkt.NewEncoder()
+			}
+		case "o:wkbopt":
+			if a.NaN {
+				it.wkbOpts = []wkbcommon.WKBOption{wkbcommon.WKBOptionEmptyPointHandling(wkbcommon.EmptyPointHandlingNaN)}
+			} else {
+				it.wkbOpts = []wkbcommon.WKBOption{wkbcommon.WKBOptionEmptyPointHandling(wkbcommon.EmptyPointHandlingError)}
+			}
 		default:
 			return nil, fmt.Errorf("pool %d: unknown kind %q", i, a.K)
 		}
@@ -324,6 +356,8 @@ func snapshot(items []*item) []snap {
 				u = append(u, math.Float64bits(it.bd.Min(d)), math.Float64bits(it.bd.Max(d)))
 			}
 			s = append(s, u)
+		case "o:gj", "o:wktenc", "o:wkbopt":
+			s = append(s, []uint64{0}) // opaque option values: nothing observable
 		default:
 			s = append(s, []uint64{uint64(core.HashString(it.s))})
 		}
@@ -459,6 +493,11 @@ func (prop) Execute(scAny any, phase string, log *core.Log) core.Result {
 		}
 		if s.Calls[ci].Fn == "wkt.Unmarshal" {
 			wktParsers += len(ws)
+		}
+	}
+	for ai, ws := range users {
+		if len(ws) >= 2 && strings.HasPrefix(s.Pool[ai].K, "o:") {
+			res.Count("probe:shared-option-value-on->=2-workers", 1)
 		}
 	}
 	if wktParsers >= 4 {
@@ -762,6 +801,12 @@ func (g *gen) newArg(kind string) Arg {
 		return Arg{K: "j", S: s, Cap: []int{0, 0, 7}[r.Intn(3)]}
 	case kind == "i":
 		return Arg{K: "i", S: c19.GenText(r), Cap: []int{0, 0, 9}[r.Intn(3)]}
+	case kind == "o:gj":
+		return Arg{K: "o:gj", Digits: []int{-1, 0, 2, 3, 7}[r.Intn(5)], BBox: r.Chance(0.4)}
+	case kind == "o:wktenc":
+		return Arg{K: "o:wktenc", Digits: []int{-1, 0, 2, 3, 7}[r.Intn(5)]}
+	case kind == "o:wkbopt":
+		return Arg{K: "o:wkbopt", NaN: r.Chance(0.6)}
 	}
 	panic("c17: no generator for kind " + kind)
 }
@@ -801,6 +846,12 @@ func (g *gen) argFor(kind string) int {
 
 func (prop) Generate(r *prng.Rand, phase string) any {
 	s := &Scenario{MaxProcs: []int{1, 2, 4, 16}[r.Intn(4)]}
+	if phase == "race" && s.MaxProcs == 1 {
+		// With one P the workers run one after the other and incidental
+		// happens-before edges (sync.Pool inside encoding/json and fmt under
+		// -race) can order them; races then go unreported and unreproduced.
+		s.MaxProcs = 8
+	}
 	g := &gen{r: r, s: s}
 	g.cfg = mgeom.SwarmCfg(r, []int{1, 2, 3, 4})
 	g.cfg.FloatMode = 0
